@@ -20,7 +20,8 @@ LEVEL = "exploration"
 RULE = ("structures (1-4 chains, chain breaks with and without TER, OXT present/absent/not last atom, negative/"
         "gapped/>999/insertion-coded numbering, blank/digit/lower-case chain ids, hetero-first files, library ligands "
         "of every group type, every ion name, truncated residues, threaded mutations, 1-2 identical MODELs) x options "
-        "{none, -c subset, -i subset}. Non-trivial: >= 2 expected sites and at least one of: >= 2 chains, TER-less "
+        "{none, -c subset, -i subset}; one residue as alternate locations A/B (side chain or whole residue, often the "
+        "first residue of the file). Non-trivial: >= 2 expected sites and at least one of: >= 2 chains, TER-less "
         "break, OXT not last, insertion code, negative number, ligand/ion, truncation, option; distinct by hash of "
         "(input, options).")
 ASSUMPTIONS = [
@@ -195,12 +196,96 @@ def check_case(case):
     return v, {"labels": labels, "n_exp": n_exp}
 
 
+def check_altloc(case):
+    """Alternate locations: the conformation named after a tag consists of the untagged atoms and the atoms of that
+    tag; its reported protein groups must be in bijection (kind + residue) with the census of that resolved text."""
+    text = case["pdb"]
+    ents = pdbio.parse(text)
+    atoms = pdbio.atoms_of(ents)
+    tags = sorted({a.alt for a in atoms if a.alt != " "})
+    rec = observe.run(text, [], name="a")
+    if rec["error"]:
+        return [{"clause": "runs", "detail": repr(rec["error"])}], {"labels": []}
+    v = []
+    n = 0
+    for tag in tags:
+        cname = "1" + tag
+        if cname not in rec["confs"]:
+            v.append({"clause": "conformation-per-tag", "detail": "no conformation %s among %r" % (cname, rec["conf_names"])})
+            continue
+        res = []
+        for e in ents:
+            if isinstance(e, Atom):
+                if e.alt not in (" ", tag):
+                    continue
+                e = e.copy()
+                e.alt = " "
+            res.append(e)
+        rtext = pdbio.write(res)
+        ratoms = pdbio.atoms_of(pdbio.parse(rtext))
+        want = collections.Counter()
+        for s in census.expected_sites(rtext).get(1, []):
+            a = ratoms[s["key"]]
+            want[(s["kind"], a.chain, a.resnum, a.icode, "%.2f" % s["model_pka"])] += 1
+        got = collections.Counter()
+        for g in rec["confs"][cname]["groups"]:
+            if g["reported"] and not g["hetatm"] and isinstance(g["key"], int):
+                a = atoms[g["key"]]
+                got[(g["rtype"], a.chain, a.resnum, a.icode, "%.2f" % g["model_pka"])] += 1
+        n += sum(want.values())
+        if want != got:
+            missing, extra = list((want - got).elements()), list((got - want).elements())
+            sig = None
+            if len(missing) == 1 and missing[0][0] == "N+" and not extra:
+                # open finding F23: a one-residue chain (N and terminal oxygen in one residue) listed as whole-residue
+                # alternates gets its amino terminus only in the first alternate
+                own = [a for a in atoms if (a.chain, a.resnum, a.icode) == missing[0][1:4]]
+                if any(a.aname in pdbio.TERMINAL_O for a in own) and all(a.alt != " " for a in own if a.aname == "N") \
+                        and tag != tags[0]:
+                    sig = "one-residue-chain-alternates"
+            v.append({"clause": "census-bijection", "sig": sig, "detail": "conf %s: missing %s, not expected %s" % (
+                cname, missing[:4], extra[:4])})
+            break
+    return v, {"labels": ["alternate-locations", "tags:%d" % len(tags)], "nontrivial": n >= 2 and len(tags) >= 2}
+
+
 def replay(case):
+    if case.get("altloc"):
+        return check_altloc(case)[0]
     return check_case(case)[0]
 
 
 def run_shard(ctx):
     quick = ctx.tier == "quick"
+
+    # one residue (often the first of the file, i.e. a chain start) present twice as alternate locations A and B,
+    # either its side chain or the whole residue with backbone and terminal oxygen
+    @st.composite
+    def alt_cases(draw):
+        s = draw(gen.structures(max_res=16 if quick else 40, allow_hetero=False, allow_icode=False,
+                                distinct_chain_ids=True))
+        pick = draw(st.one_of(st.just(0), st.integers(0, 40)))
+        whole = draw(st.booleans())
+        ents, changed = gen.with_alternate_location(s.entries, pick, whole=whole)
+        return s, pdbio.write(ents), changed, whole, pick
+
+    def alt_body(t):
+        s, text, changed, whole, pick = t
+        if not changed:
+            return
+        if common.twin_atoms(pdbio.parse(text)):
+            # insertion-code twins are one residue to the bookkeeping that completes conformations (open finding F5);
+            # the main census stage covers them with its signature, this stage leaves them out by construction
+            ctx.labels["skipped:icode-twins"] += 1
+            return
+        case = {"pdb": text, "altloc": True}
+        v, info = check_altloc(case)
+        info["labels"] = info.get("labels", []) + ["alt:whole-residue" if whole else "alt:side-chain"] + \
+            (["alt:first-residue"] if pick == 0 else [])
+        info["sample"] = {"structure": s.summary(), "whole_residue": whole, "pick": pick}
+        ctx.account(case, v, info)
+
+    ctx.hypothesis_stage("alternate-locations", alt_cases(), alt_body, 240 if quick else 5000)
 
     @st.composite
     def cases(draw):
